@@ -265,7 +265,8 @@ impl Emitter {
         debug_assert!(!op.contains('\n') && !a.contains('\n'));
         self.nontrivial.insert(fnv(&op));
         if self.samples.len() < 6 && (self.ops.len() % 97 == 0) {
-            self.samples.push(json!({"op": op, "impl": a}));
+            let cut = |s: &str| if s.len() > 400 { format!("{}… ({} chars)", &s[..400], s.len()) } else { s.to_string() };
+            self.samples.push(json!({"op": cut(&op), "impl": cut(&a)}));
         }
         self.ops.push(op);
         self.impl_out.push(a);
